@@ -207,7 +207,9 @@ def server_streams():
              R.encode_message(R.method_call(2, None, '/a', 'a.b', 'M', [R.U(7), R.S('yy')], endian='B')),
              R.encode_message(R.signal(3, '/a', 'a.b', 'S2', []))]
     long_ = [R.encode_message(R.signal(i + 1, '/a', 'a.b', 'L%d' % i, [R.S('p' * (40 + i))])) for i in range(40)]
-    return [('short', hs, short), ('long', hs, long_)]
+    huge = [R.encode_message(R.signal(i + 1, '/a', 'a.b', 'H%d' % i, [R.S('q' * (60 + i % 7))]) if i % 5 else R.method_call(i + 1, None, '/a', 'a.b', 'C%d' % i, [R.S('q' * 50)]))
+            for i in range(120)]
+    return [('short', hs, short), ('long', hs, long_), ('huge', hs, huge)]
 
 
 def server_expected(msgs):
@@ -235,8 +237,11 @@ def task_server(t):
                 out.append(Violation('server-setup', mode, 'SERVE answered %r' % r, {'server': [name, mode, list(cuts)]}))
                 break
             pos = 0
-            for c in list(cuts) + [len(data)]:
-                h.cmd('W ' + (data[pos:c].hex() or '-'))
+            # a first element of -1: the writer closes its end right after the last write, before the server side has run
+            closing = bool(cuts) and cuts[0] == -1
+            pts = [c for c in cuts if c >= 0] + [len(data)]
+            for j, c in enumerate(pts):
+                h.cmd(('WCLOSE ' if closing and j == len(pts) - 1 else 'W ') + (data[pos:c].hex() or '-'))
                 pos = c
             r = h.cmd('LOG')
             n += 1
@@ -246,7 +251,7 @@ def task_server(t):
                 if item and item != '-' and item != 'DISCONNECTED':
                     f = item.split(':')
                     got.append((int(f[0]), f[1], int(f[2])))
-            connected = ' connected=1 ' in r
+            connected = ' connected=1 ' in r or closing
             if got != want or not connected:
                 out.append(Violation('chunking-changes-result', 'server-' + mode,
                                      'libdbus as server (%s), stream %r written with cuts %s: received %d of %d messages%s; first difference at index %d' %
@@ -283,6 +288,16 @@ def run(ctx):
     server_runs_planned = 0
     for name, hs_, msgs_ in server_streams():
         Ls = len(hs_) + sum(len(x) for x in msgs_)
+        if name == 'huge':
+            # the writer writes (in one piece, or the handshake first and the rest after it, or with one more cut at a read
+            # boundary) and closes at once: the reader finds more than two reads' worth of data together with the hang-up
+            # (the handshake is always completed first: a peer that has gone before the server could WRITE its side of the
+            # handshake legitimately gets nowhere -- that is a write failure, not a question of how reads are split)
+            cs = [(-1, len(hs_))] + [(-1, len(hs_), len(hs_) + k) for k in (1, 2047, 2048, 2049, 4096, 4097, 8192)] + [(), (len(hs_),)]
+            for mode in ('rwd', 'watch'):
+                server_runs_planned += len(cs)
+                tasks.append((task_server, (name, mode, cs)))
+            continue
         cs = [()] + [(a,) for a in range(1, Ls)]
         near = sorted(set(range(max(1, len(hs_) - 6), len(hs_) + 10)) | set(len(hs_) + k + d for k in (2048, 4096) for d in range(-12, 4) if 0 < len(hs_) + k + d < Ls))
         cs += [(a, b) for a in near for b in near if a < b]
